@@ -231,11 +231,20 @@ def engine_half(R, m, names):
         'x-escape': cat(ALL(), lit('\\x'), ALL()), 'U-escape': cat(ALL(), lit('\\U'), ALL()),
         'raw': nset('`'), 'any1': Rx('set', ((0, strlang.PYMAX),)), 'astral-u': cat(ALL(), idtok_astral, ALL()),
     }
+    import re._constants as _sc
+    from vt.strlang_ext import rs_minus
+    word_not_java = rs_minus(tuple(strlang.category_ranges(_sc.CATEGORY_WORD)), tuple(strlang.rs_norm(tabs['identPart'])))
+    if not word_not_java:
+        raise HarnessError('Python \\w is contained in Java identifier-part: the known class predicate is empty')
+    region['word-not-java'] = cat(ALL(), Rx('set', tuple(word_not_java)), ALL())
 
     def build(red):
         rt = strlang.ReTranslator() if red is None else sx.ReducedReTranslator(red)
         cs = rt.charsets
-        Z = {'P': rt.language(J._parsable_str, 'fullmatch'), 'PID': rt.language(id_simple_pat, 'fullmatch'),
+        rn, _, rcond = N.raw_branch(loader.src('hail/python/hail/utils/java.py'))
+        Pz, pcs = N.raw_language(rn, rcond, vars(J), red)
+        cs.extend(pcs)
+        Z = {'P': Pz, 'PID': rt.language(id_simple_pat, 'fullmatch'),
              'TOK': sx.to_z3(N.tok_lang(), cs, red), 'LEX': sx.to_z3(LEX, cs, red), 'JID': sx.to_z3(JID, cs, red),
              'BACKTICK': sx.to_z3(BACKTICK, cs, red), 'IDTOK': sx.to_z3(alt(idtok_ok, idtok_astral), cs, red),
              'IDTOK_OK': sx.to_z3(idtok_ok, cs, red)}
@@ -339,14 +348,21 @@ def engine_half(R, m, names):
            z3.Intersect(EMIT_T_ESC, notlex, kU, z3.Complement(kx)), 'engine-lexer-rejects-U-escape', 'escape_parsable',
            J.escape_parsable, z3.Intersect(EMIT_T_ESC, kU), pred=lambda text: '\\U' in text.replace('\\\\', ''),
            exemplars=['\U0001f600', 'a\U00010000'])
-    decide('engine(model): simple type-string names ([_a-zA-Z][\\w_]*) are Java identifiers',
-           z3.Intersect(Z['P'], z3.Complement(Z['JID'])), 'engine-ident-narrower-than-python-word', 'escape_parsable',
+    kw = Z['r:word-not-java']
+    decide('engine(model): names emitted as-is in type strings are Java identifiers (apart from names with a \\w character outside '
+           'Java identifier-part)', z3.Intersect(Z['P'], z3.Complement(Z['JID']), z3.Complement(kw)),
+           'engine-lexer-rejects-raw-name', 'escape_parsable', J.escape_parsable, Z['P'])
+    decide('engine(model): names emitted as-is in type strings with a \\w character outside Java identifier-part are Java identifiers',
+           z3.Intersect(Z['P'], z3.Complement(Z['JID']), kw), 'engine-ident-narrower-than-python-word', 'escape_parsable',
            J.escape_parsable, Z['P'])
     # IR identifiers (escape_id)
     decide('engine(model): escaped IR identifiers are accepted by the lexer', z3.Intersect(EMIT_I_ESC, notlex),
            'engine-lexer-rejects-escaped-identifier', 'escape_id', M.escape_id, EMIT_I_ESC)
-    decide('engine(model): simple IR identifiers ([_a-zA-Z]\\w*) are Java identifiers',
-           z3.Intersect(Z['PID'], z3.Complement(Z['JID'])), 'engine-ident-narrower-than-python-word-ir-id', 'escape_id',
+    decide('engine(model): IR identifiers emitted as-is are Java identifiers (apart from names with a \\w character outside Java '
+           'identifier-part)', z3.Intersect(Z['PID'], z3.Complement(Z['JID']), z3.Complement(kw)),
+           'engine-lexer-rejects-raw-identifier', 'escape_id', M.escape_id, Z['PID'])
+    decide('engine(model): IR identifiers emitted as-is with a \\w character outside Java identifier-part are Java identifiers',
+           z3.Intersect(Z['PID'], z3.Complement(Z['JID']), kw), 'engine-ident-narrower-than-python-word-ir-id', 'escape_id',
            M.escape_id, Z['PID'])
     # the escape_id token code must be a prefix code, otherwise two different names emit the same text
     def ambiguous(w):
